@@ -804,5 +804,291 @@ Section SimP.
         destruct (rl rec st r) as [b| |]; cbn [bind]; [|rewrite H2; reflexivity|rewrite H2; reflexivity].
         destruct H2 as [g2 [E2 X2]]. rewrite E2. cbn [mbind]. exists g2. split; [reflexivity|eapply gextP_trans; eassumption].
     Qed.
+
+    Lemma sim_stepP : simPp (render_step Isolated lib rec) (mstep Isolated lib mrec).
+    Proof.
+      intros t w G st g c Hs Hw Hd.
+      destruct t as [s|e|cnd x y|x e body|x e body|name isd isr data body|nm dv defv body|cname kw only body|key kw body];
+        cbn [render_step mstep].
+      - exists g. split; [reflexivity|apply gextP_refl].
+      - cbn [wf_tp] in Hw. pose proof (srelP_meval _ _ _ _ _ _ Hs Hw) as Hr. unfold mout.
+        remember (meval e (dicts c)) as cv. remember (eval e st) as xv.
+        destruct Hr; (exists g; split; [reflexivity|apply gextP_refl]).
+      - cbn [wf_tp] in Hw. apply andb_true_iff in Hw as [Hw Hwy]. apply andb_true_iff in Hw as [Hwc Hwx].
+        rewrite (crel_truthy _ _ (srelP_meval _ _ _ _ _ _ Hs Hwc)).
+        destruct (truthy (eval cnd st)).
+        + apply (sim_listP x w G st g c Hs Hwx). intros rid dl E. destruct (Hd rid dl E) as [Hi Ha]. split; [|exact Ha].
+          intros z Hz. apply Hi. cbn [slot_defaults_t]. apply in_or_app. left. exact Hz.
+        + apply (sim_listP y w G st g c Hs Hwy). intros rid dl E. destruct (Hd rid dl E) as [Hi Ha]. split; [|exact Ha].
+          intros z Hz. apply Hi. cbn [slot_defaults_t]. apply in_or_app. right. exact Hz.
+      - discriminate Hw.
+      - (* with *)
+        cbn [wf_tp] in Hw.
+        apply andb_true_iff in Hw as [Hw Hwb]. apply andb_true_iff in Hw as [Hw Hnin]. apply andb_true_iff in Hw as [Hwe Hbx].
+        apply negb_true_iff in Hnin. apply smemb_notin in Hnin.
+        rewrite (meval_val_relL _ _ _ (srelP_vrelL _ _ _ _ _ Hs) Hwe). unfold mwith.
+        pose proof (srelP_push _ _ _ _ _ x (to_value (eval e st)) Hs Hbx Hnin) as Hs'.
+        assert (Hd' : forall rid dl, w = WInst rid dl -> incl (slot_defaults body) dl /\ (forall a b, In a dl -> In b dl -> a = b)).
+        { intros rid dl E. exact (Hd rid dl E). }
+        pose proof (sim_listP body w (x :: G) _ g _ Hs' Hwb Hd') as H.
+        destruct (rl rec (bind_loc x (to_value (eval e st)) st) body) as [a| |]; [|rewrite H; reflexivity|rewrite H; reflexivity].
+        destruct H as [g' [E X]]. rewrite E. cbn [mbind]. rewrite push_pop_id. exists g'. auto.
+      - (* slot *)
+        cbn [wf_tp] in Hw. apply andb_true_iff in Hw as [Hw Hwb]. apply andb_true_iff in Hw as [Hnb Hkw].
+        apply negb_true_iff in Hnb.
+        assert (Hkw' : kw_ok (is_body w) data = true) by (rewrite Hnb; exact Hkw).
+        pose proof (srelP_kwargs _ _ _ _ _ _ Hs Hkw') as Ekw.
+        pose proof Hs as [Ho [Hv [Hincl [[Hcg Hcf] [Hpr [Hui Hwho]]]]]].
+        assert (Hex : is_extracting (dicts c) = false) by (unfold is_extracting; rewrite Hcg; reflexivity).
+        destruct w as [| |rid dl]; [discriminate Hnb| |].
+        + destruct Hwho as [Hc [Hk _]]. rewrite Hc. unfold mslot. rewrite Ekw, Hex, Hk. reflexivity.
+        + destruct Hwho as [cn [fills [Hc Hirel]]]. rewrite Hc.
+          pose proof Hirel as [Hk [Hcv [Hlt [ci [O [tp [Ha [HO [[HOg HOf] [HOu [HpO [HF Hdf]]]]]]]]]]]].
+          destruct (Hd rid dl eq_refl) as [Hdin Hsame].
+          destruct (slot_default_check_ok rid ci name isd g dl Ha Hlt Hdf Hsame) as [g1 [Eg1 Xg1]].
+          { intros ->. apply Hdin. cbn [slot_defaults_t]. left. reflexivity. }
+          assert (Xg1P : gextP (WInst rid dl) g g1).
+          { split; [exact Xg1|]. unfold slot_default_check in Eg1. split.
+            - destruct Xg1 as [Hn _]. exact Hn.
+            - intros pid _. destruct isd; [|inversion Eg1; reflexivity].
+              destruct (ci_default ci); [destruct (negb (str_eqb name s))|]; inversion Eg1; reflexivity. }
+          assert (Hs1 : srelP g1 c st G (WInst rid dl)) by (eapply srelP_gext; eassumption).
+          unfold double_filled. rewrite <- (smem_frelQ _ _ _ _ name HF), <- (smem_frelQ _ _ _ _ default_key HF).
+          destruct (isd && negb (str_eqb name default_key) && smem name (ci_fills ci) && smem default_key (ci_fills ci)) eqn:Edf.
+          { unfold mslot. rewrite Ekw, Hex, Hk, Ha, Eg1. cbn [mbind]. rewrite Edf. reflexivity. }
+          unfold fill_name_of. rewrite <- (smem_frelQ _ _ _ _ default_key HF).
+          set (fname := if isd && smem default_key (ci_fills ci) then default_key else name).
+          pose proof (slookup_frelQ _ _ _ _ HF fname) as Hf.
+          set (sdata := VRec (eval_kwargs data st)).
+          destruct Hs1 as [_ [_ [_ [_ [Hpr1 [_ Hwho1]]]]]].
+          destruct Hwho1 as [cn1 [fills1 [Hc1 Hirel1]]].
+          assert (Efills : fills1 = fills) by congruence. subst fills1.
+          destruct (slookup fname (ci_fills ci)) as [sf|] eqn:Em, (slookup fname fills) as [cl|] eqn:Es; try contradiction.
+          * (* filled: the fill body on the instance's outer Context *)
+            rewrite (mslot_filled_lemma Isolated mrec name isd isr data body g c _ rid ci g1 sf Ekw Hex Hk Ha Eg1 Edf Em).
+            destruct cl as [fbody btw cloc cout fdv fdefv owner cprov].
+            destruct Hf as [_ [Hb [Hdv [Hdfv [-> [-> [-> [Hfe [loc0 [Gb [-> [Hv0 [Hwfb [Hinb [Hdvb Hdisj]]]]]]]]]]]]]]].
+            cbn [clo_defvar clo_dvar clo_body bind fst snd] in *.
+            destruct (slot_extra_prov ci true (dicts c) Hui) as [extra [Eex [Hex1 [Hex2 Hexu]]]].
+            rewrite Eex, HO. cbn [mbind is_django app].
+            set (sref := CSlotRef body (oid c) (oid O) (dicts c) (slot_rvars (dicts c))).
+            assert (Hexk : forall k, relevant k -> slookup k extra = None) by (intros k Hr; apply Hex1, relevant_not_inj, Hr).
+            destruct (fill_ctx_vrel (dicts O) sf btw loc0 Gb fdv sdata sref extra Hdv Hdfv Hfe Hv0 (conj HOg HOf) Hinb Hdvb Hdisj Hexk)
+              as [Hvb Hcb].
+            pose proof (irelP_gext _ _ _ _ _ _ Hirel Xg1P) as [_ [_ [_ [ci1 [O1 [tp1 [Ha1 [HO1 [_ [_ [HpO1 [HF1 _]]]]]]]]]]]].
+            assert (HpO' : prel g1 (dicts O) tp).
+            { eapply prel_mono; [exact HpO|apply Xg1P]. }
+            destruct (fill_ctx_prov g1 (dicts O) (dicts c) sf btw fdv sdata sref extra (prov st) tp Hdv Hdfv Hfe
+                        (fun x Hx => proj2 (Hdisj x Hx)) (fun x Hx => proj2 (Hdvb x Hx)) Hex1 Hex2 Hexu Hpr1 HpO' HOu) as [Hpb Hub].
+            set (c0 := with_dicts O (cpush extra (dicts O))).
+            set (cb := with_dicts c0 (rf_dicts sf sdata sref (dicts c0))).
+            set (stb := fill_state true st (match fdv with Some x0 => [(x0, sdata)] | None => [] end)
+                          (Clo fbody btw (btw ++ loc0) [] fdv None owner tp)).
+            assert (Hsb : srelP g1 cb stb (match fdv with Some x0 => x0 :: Gb | None => Gb end) WBody).
+            { unfold stb. cbn [fill_state]. split; [reflexivity|]. cbn [loc prov]. split; [exact Hvb|]. split.
+              - rewrite !map_app. intros z Hz. apply in_app_or in Hz as [Hz|Hz].
+                + destruct fdv as [d|]; [|destruct Hz]. destruct Hz as [<-|[]]. left. reflexivity.
+                + assert (Hz' : In z Gb).
+                  { apply Hinb. rewrite map_app. apply in_app_or in Hz as [Hz|Hz]; [apply in_or_app; left; exact Hz|].
+                    rewrite <- map_app in Hz. rewrite <- map_app. exact Hz. }
+                  destruct fdv; [right|]; exact Hz'.
+              - split; [exact Hcb|]. split; [exact Hpb|]. split; [exact Hub|exact I]. }
+            assert (Hwb' : wf_lp (is_body WBody) (match fdv with Some x0 => x0 :: Gb | None => Gb end) (sf_body sf) = true)
+              by (rewrite Hb; exact Hwfb).
+            pose proof (sim_listP (sf_body sf) WBody _ stb g1 cb Hsb Hwb' ltac:(intros; discriminate)) as Hbody.
+            pose proof (m_render_func_run mrec sf sdata sref g1 O extra) as Hrun. cbn zeta in Hrun. fold c0 cb in Hrun.
+            rewrite Hb in Hbody. revert Hbody. unfold stb.
+            destruct (rl rec _ fbody) as [a| |]; intro Hbody.
+            -- destruct Hbody as [g3 [E3 X3]]. rewrite Hb, E3 in Hrun. destruct (Hrun eq_refl) as [c2 [E2 _]].
+               fold c0. fold sdata sref. rewrite E2. cbn [mbind]. exists g3. split; [reflexivity|].
+               eapply gextP_trans; [exact Xg1P|]. destruct X3 as [X3 X3p]. split; [apply gexact_gext; exact X3|exact X3p].
+            -- rewrite Hb, Hbody in Hrun. fold c0. fold sdata sref. rewrite Hrun. reflexivity.
+            -- rewrite Hb, Hbody in Hrun. fold c0. fold sdata sref. rewrite Hrun. reflexivity.
+          * (* unfilled *)
+            destruct (mslot_unfilled_lemma Isolated mrec name isd data body g c _ rid ci g1 Ekw Hex Hk Ha Eg1 Edf Em) as [Er Eu].
+            destruct isr; [rewrite Er; reflexivity|]. rewrite Eu. clear Er Eu.
+            destruct (slot_extra_prov ci false (dicts c) Hui) as [extra [Eex [Hex1 [Hex2 Hexu]]]].
+            rewrite Eex. cbn [mbind].
+            set (sref := CSlotRef body (oid c) (oid c) (dicts c) (slot_rvars (dicts c))).
+            set (c0 := with_dicts c (cpush extra (dicts c))).
+            set (cb := with_dicts c0 (rf_dicts (unfilled_fn body) sdata sref (dicts c0))).
+            assert (Hsame_k : forall k, cget k (dicts cb) = cget k (dicts c)).
+            { intros k. unfold cb, c0. cbn [dicts with_dicts]. unfold rf_dicts, unfilled_fn. cbn [sf_dvar sf_defvar sf_extra].
+              rewrite cget_insert by reflexivity. unfold cpush. apply cget_push_extra; assumption. }
+            assert (Hucb : uinj (dicts cb)).
+            { unfold cb, c0. cbn [dicts with_dicts]. unfold rf_dicts, unfilled_fn. cbn [sf_dvar sf_defvar sf_extra].
+              apply uinj_insert; [unfold cpush; apply uinj_snoc; assumption|]. intros k _. cbn. lia. }
+            assert (Hsb : srelP g1 cb st G (WInst rid dl)).
+            { apply (srelP_same g1 c cb); [exact Hsame_k|exact Hucb|]. eapply srelP_gext; eassumption. }
+            assert (Hd' : forall rid0 dl0, WInst rid dl = WInst rid0 dl0 ->
+                      incl (slot_defaults body) dl0 /\ (forall a b, In a dl0 -> In b dl0 -> a = b)).
+            { intros rid0 dl0 E. inversion E; subst. split; [|exact Hsame]. intros z Hz. apply Hdin. cbn [slot_defaults_t].
+              apply in_or_app. right. exact Hz. }
+            pose proof (sim_listP body (WInst rid dl) G st g1 cb Hsb Hwb Hd') as Hbody.
+            pose proof (m_render_func_run mrec (unfilled_fn body) sdata sref g1 c extra) as Hrun. cbn zeta in Hrun.
+            fold c0 cb in Hrun. cbn [sf_body unfilled_fn] in Hrun.
+            destruct (rl rec st body) as [a| |].
+            -- destruct Hbody as [g3 [E3 X3]]. rewrite E3 in Hrun. destruct (Hrun eq_refl) as [c2 [E2 Hc2]].
+               fold c0. fold sdata sref. rewrite E2. cbn [mbind]. rewrite Hc2. exists g3. split; [reflexivity|].
+               eapply gextP_trans; eassumption.
+            -- rewrite Hbody in Hrun. fold c0. fold sdata sref. rewrite Hrun. reflexivity.
+            -- rewrite Hbody in Hrun. fold c0. fold sdata sref. rewrite Hrun. reflexivity.
+      - destruct Hs as [_ [_ [_ [[Hcg _] _]]]]. unfold is_extracting. rewrite Hcg. reflexivity.
+      - (* component *)
+        cbn [wf_tp] in Hw. apply andb_true_iff in Hw as [Hkw Hwb]. unfold mcomp.
+        rewrite (srelP_kwargs _ _ _ _ _ _ Hs Hkw).
+        pose proof Hs as [Ho [Hv [Hincl [[Hcg Hcf] [Hpr [Hui Hwho]]]]]].
+        unfold is_extracting. rewrite Hcg.
+        destruct (slookup cname lib) as [cd|] eqn:El; [|reflexivity].
+        pose proof (Hlib _ _ El) as Hcd. unfold wf_cdef_p in Hcd.
+        apply andb_true_iff in Hcd as [Hcd Hsame]. apply andb_true_iff in Hcd as [Hdata Hwt].
+        pose proof (resolve_simP mrec g c st G body Ho Hv Hincl (conj Hcg Hcf) Hwb) as Hres.
+        destruct (resolve_fills st body) as [fills| |]; cbn [bind]; [|rewrite Hres; reflexivity|contradiction].
+        destruct Hres as [g1 [fm [Eres [Hcc1 [Hpx1 HF]]]]]. rewrite Eres. cbn [mbind].
+        cbn [is_django negb]. rewrite orb_true_r.
+        destruct (isolated_copy_prov g1 c Hcf Hui) as [L [o [Ecopy [HL [HLi HLu]]]]]. rewrite Ecopy.
+        unfold fresh, snapshot. cbn [g_next g_cctx g_collect g_prov fresh].
+        set (g4 := {| g_next := N.succ (N.succ (N.succ (g_next g1))); g_cctx := g_cctx g1; g_collect := g_collect g1; g_prov := g_prov g1 |}).
+        assert (Hpx4 : pext g g4).
+        { eapply pext_trans; [exact Hpx1|]. split; [cbn; lia|]. intros pid _. reflexivity. }
+        assert (HpL : prel g4 [L] (prov st)).
+        { apply (prel_same g4 (dicts c)); [|eapply prel_mono; eassumption].
+          intro key. cbn [cget]. rewrite (HLi _ (starts_inj_inj_key key)). destruct (cget (inj_key key) (dicts c)); reflexivity. }
+        pose proof (eval_data_simP (c_data cd) (eval_kwargs kw st) (prov st) g4 [L] Hdata HpL) as Hed.
+        cbn [dicts oid with_dicts].
+        destruct (eval_data (c_data cd) (eval_kwargs kw st) (prov st)) as [data|k|]; cbn [bind]; [|rewrite Hed; reflexivity|contradiction].
+        destruct Hed as [Em Hdincl]. rewrite Em. cbn [mbind].
+        cbn [g_next g_cctx g_collect g_prov set_cctx].
+        set (rid := N.succ (g_next g1)).
+        set (dl := slot_defaults (c_tpl cd)).
+        set (dataM := map (fun kv => (fst kv, CVal (snd kv))) data).
+        set (keyl := [(KEY, CId rid); (CVARS, CVars (map (fun kf => escape_name (fst kf)) fm))]).
+        set (snap := {| oid := N.succ (N.succ (N.succ (g_next g1))); dicts := cpush keyl (cpush dataM [L]) |}).
+        set (osnap := {| oid := N.succ (N.succ (g_next g1)); dicts := dicts c |}).
+        set (entry := {| ci_name := cname; ci_fills := fm; ci_default := None; ci_outer := Some osnap |}).
+        set (g6 := {| g_next := N.succ (N.succ (N.succ (N.succ (g_next g1)))); g_cctx := aset rid entry (g_cctx g1);
+                      g_collect := g_collect g1; g_prov := g_prov g1 |}).
+        set (st' := comp_state st cname fills data (is_isolated Isolated only)).
+        assert (Hiso : is_isolated Isolated only = true) by (unfold is_isolated; apply orb_true_r).
+        assert (Hpx6 : pext g g6).
+        { eapply pext_trans; [exact Hpx1|]. split; [cbn; lia|]. intros pid _. reflexivity. }
+        assert (Hdu : forall x, In x (map fst (c_data cd)) -> uname x = true).
+        { intros x Hx. apply in_map_iff in Hx as [[y d] [E Hin]]. cbn in E. subst y. rewrite forallb_forall in Hdata.
+          specialize (Hdata _ Hin). cbn in Hdata. apply andb_true_iff in Hdata as [_ Hu]. exact Hu. }
+        assert (Hdk : forall k, uname k = false -> slookup k dataM = None).
+        { intros k Hk. unfold dataM. rewrite slookup_map_cval. rewrite (slookup_notin k data); [reflexivity|].
+          intro Hin. apply Hdincl, Hdu in Hin. congruence. }
+        assert (Hs' : srelP g6 snap st' (map fst (c_data cd)) (WInst rid dl)).
+        { unfold st', comp_state. rewrite Hiso. split; [reflexivity|]. cbn [loc cur prov dicts snap].
+          assert (Hlook : forall k, k <> KEY -> k <> CVARS -> uname k = false ->
+                    cget k (cpush keyl (cpush dataM [L])) = slookup k L).
+          { intros k H1 H2 Hu. unfold cpush. rewrite !cget_snoc. unfold keyl. cbn [slookup cget].
+            rewrite (str_eqb_neq _ _ H1), (str_eqb_neq _ _ H2), (Hdk k Hu). reflexivity. }
+          split.
+          { intros x Hx. unfold cpush. rewrite !cget_snoc. unfold keyl. cbn [slookup cget].
+            rewrite !str_eqb_neq by (intro E; subst; discriminate). unfold dataM. rewrite slookup_map_cval.
+            rewrite (HL x (uname_l0_ok x Hx)). destruct (slookup x data); reflexivity. }
+          split; [exact Hdincl|]. split.
+          { split; (rewrite Hlook; [apply HL; repeat split; try reflexivity; intro E; discriminate E|intro E; discriminate E|intro E; discriminate E|reflexivity]). }
+          split.
+          { intro key. rewrite Hlook.
+            - rewrite (HLi _ (starts_inj_inj_key key)). apply (prel_mono g); [exact Hpr|exact Hpx6].
+            - intro E. symmetry in E. revert E. apply inj_key_not_relevant. unfold relevant; auto.
+            - intro E. symmetry in E. revert E. apply inj_key_not_relevant. unfold relevant; auto.
+            - destruct (uname (inj_key key)) eqn:E; [|reflexivity]. apply uname_not_inj in E. rewrite starts_inj_inj_key in E. discriminate. }
+          split.
+          { unfold cpush. apply uinj_snoc; [apply uinj_snoc|].
+            - intros d [<-|[]]. exact HLu.
+            - apply uinj_layer_noinj. intros k Hk. apply Hdk. destruct (uname k) eqn:E; [|reflexivity].
+              rewrite (uname_not_inj _ E) in Hk. discriminate.
+            - apply uinj_layer_noinj. intros k Hk. unfold keyl. cbn [slookup].
+              rewrite !str_eqb_neq; [reflexivity| |]; intro E; subst; discriminate. }
+          exists cname, fills. split; [reflexivity|].
+          split; [unfold cpush; rewrite cget_snoc; reflexivity|].
+          split. { unfold cpush. rewrite cget_snoc. unfold keyl. cbn [slookup].
+                   rewrite (str_eqb_neq CVARS KEY) by discriminate. rewrite str_eqb_refl.
+                   rewrite (map_escape_names _ _ (Forall2_frelQ_names _ _ _ _ HF)). reflexivity. }
+          split; [unfold g6, rid; cbn; lia|].
+          exists entry, osnap, (prov st). split; [unfold g6; cbn [g_cctx]; apply alookup_aset_same|].
+          split; [reflexivity|]. split; [split; assumption|]. split; [exact Hui|].
+          split; [eapply prel_mono; eassumption|]. split; [exact HF|exact I]. }
+        assert (Hd' : forall rid0 dl0, WInst rid dl = WInst rid0 dl0 ->
+                  incl (slot_defaults (c_tpl cd)) dl0 /\ (forall a b, In a dl0 -> In b dl0 -> a = b)).
+        { intros rid0 dl0 E. inversion E; subst. split; [apply incl_refl|apply all_same_prop; exact Hsame]. }
+        pose proof (sim_listP (c_tpl cd) (WInst rid dl) _ st' g6 snap Hs' Hwt Hd') as Htpl.
+        fold rid keyl dataM.
+        match goal with |- context [mrl mrec ?a ?b (c_tpl cd)] => change (mrl mrec a b (c_tpl cd)) with (mrl mrec g6 snap (c_tpl cd)) end.
+        destruct (rl rec st' (c_tpl cd)) as [a| |]; [|rewrite Htpl; reflexivity|rewrite Htpl; reflexivity].
+        destruct Htpl as [g7 [E7 [[Hn7 X7] Hp7]]]. rewrite E7. cbn [mbind]. eexists. split; [reflexivity|].
+        split.
+        + apply gexact_gext. split; [cbn [g_next set_cctx]; unfold g6 in Hn7; cbn [g_next] in Hn7; destruct Hpx1 as [Hn1 _]; lia|].
+          intros j Hj. cbn [g_cctx set_cctx]. destruct Hpx1 as [Hn1 _].
+          assert (Hjr : j <> rid) by (unfold rid; lia).
+          rewrite alookup_aremove_other by exact Hjr.
+          specialize (X7 j ltac:(unfold g6; cbn [g_next]; lia)). cbn in X7.
+          destruct (N.eqb j rid) eqn:E; [apply N.eqb_eq in E; contradiction|].
+          rewrite X7. unfold g6. cbn [g_cctx]. rewrite alookup_aset_other by exact Hjr. rewrite Hcc1. reflexivity.
+        + eapply pext_trans; [exact Hpx6|]. destruct Hp7 as [Hp7a Hp7b]. split; [cbn [g_next set_cctx]; exact Hp7a|].
+          intros pid Hpid. cbn [g_prov set_cctx]. apply Hp7b. exact Hpid.
+      - (* provide *)
+        cbn [wf_tp] in Hw. apply andb_true_iff in Hw as [Hkw Hwb]. unfold mprovide.
+        rewrite (srelP_kwargs _ _ _ _ _ _ Hs Hkw).
+        destruct (is_ident key); cbn [negb]; [|reflexivity].
+        cbn [fresh g_prov].
+        destruct (srelP_provide g c st G w key (eval_kwargs kw st) Hs) as [Hs' Hx]. cbn zeta in Hs', Hx.
+        assert (Hd' : forall rid dl, w = WInst rid dl -> incl (slot_defaults body) dl /\ (forall a b, In a dl -> In b dl -> a = b)).
+        { intros rid dl E. exact (Hd rid dl E). }
+        pose proof (sim_listP body w G _ _ _ Hs' Hwb Hd') as H.
+        set (sp := {| loc := loc st; out := out st; cur := cur st; prov := (key, eval_kwargs kw st) :: prov st |}) in *.
+        match type of H with match rl rec ?s body with _ => _ end => change (rl rec s body) with (rl rec sp body) in H end.
+        match type of H with match _ with Ok _ => _ | Err _ => _ | OutOfFuel => ?l = _ end =>
+          match goal with |- context [mbind ?m _] => change m with l end end.
+        destruct (rl rec sp body) as [a| |]; [|rewrite H; reflexivity|rewrite H; reflexivity].
+        destruct H as [g' [E X]]. rewrite E. cbn [mbind]. eexists. split; [|eapply gextP_trans; eassumption].
+        f_equal. f_equal. destruct c as [o ds]. unfold with_dicts. cbn [oid dicts]. rewrite cpop_cset, cpop_cpush. reflexivity.
+    Qed.
   End StepP.
 End SimP.
+
+Lemma sim_renderP lib (Hlib : forall cn cd, slookup cn lib = Some cd -> wf_cdef_p cd = true) fuel :
+  simPp (render Isolated lib fuel) (mrender Isolated lib fuel).
+Proof.
+  induction fuel as [|f IHf].
+  - intros t w G st g c _ _ _. reflexivity.
+  - cbn [render mrender]. apply sim_stepP; assumption.
+Qed.
+
+Theorem mech_refines_sem_isolated_provide_lemma : forall p fuel,
+  wf_prog_prov p = true -> mout_of (mrender_prog fuel p) = embed (render_prog fuel p).
+Proof.
+  intros p fuel Hwf. unfold wf_prog_prov in Hwf.
+  apply andb_true_iff in Hwf as [Hwf Hpage]. apply andb_true_iff in Hwf as [Hwf Hctx].
+  apply andb_true_iff in Hwf as [Hmode Hlibb].
+  unfold mrender_prog, render_prog, mrender_list, render_list.
+  destruct (p_mode p); [|discriminate]. clear Hmode.
+  assert (Hlib : forall cn cd, slookup cn (p_lib p) = Some cd -> wf_cdef_p cd = true).
+  { intros cn cd H. apply slookup_In_lib in H. rewrite forallb_forall in Hlibb. exact (Hlibb _ H). }
+  set (st0 := {| loc := p_ctx p; out := []; cur := None; prov := [] |}).
+  assert (Hs : srelP g0 (page_ctxt p) st0 (map fst (p_ctx p)) WPage).
+  { assert (Hint : forall k, uname k = false -> slookup k builtins = None -> cget k (dicts (page_ctxt p)) = None).
+    { intros k Hk Hb. unfold page_ctxt. cbn [dicts]. rewrite page_lookup, (not_uname_notin_ctx _ _ Hctx Hk). exact Hb. }
+    assert (Hinj : forall k, starts_inj k = true -> cget k (dicts (page_ctxt p)) = None).
+    { intros k Hk. apply Hint.
+      - destruct (uname k) eqn:E; [|reflexivity]. rewrite (uname_not_inj _ E) in Hk. discriminate.
+      - unfold builtins. cbn [slookup]. rewrite !str_eqb_neq; [reflexivity| | |]; intro E; subst; discriminate. }
+    split; [reflexivity|]. split.
+    { intros x Hx. unfold page_ctxt. cbn [dicts st0 loc]. rewrite page_lookup. destruct (slookup x (p_ctx p)); [reflexivity|].
+      destruct (uname_l0_ok x Hx) as [_ [_ [H1 [H2 H3]]]]. unfold builtins. cbn [slookup].
+      rewrite !str_eqb_neq by assumption. reflexivity. }
+    split; [apply incl_refl|]. split; [split; apply Hint; reflexivity|].
+    split; [intro key; cbn; apply Hinj, starts_inj_inj_key|].
+    split.
+    { intros d Hd k Hk. rewrite (slookup_none_kcount k d); [lia|]. exact (cget_none_layers _ _ (Hinj k Hk) d Hd). }
+    split; [reflexivity|]. split; apply Hint; reflexivity. }
+  pose proof (sim_listP _ _ (sim_renderP (p_lib p) Hlib fuel) (p_page p) WPage _ st0 g0 (page_ctxt p) Hs Hpage
+                ltac:(intros; discriminate)) as H.
+  fold st0. destruct (rl (render Isolated (p_lib p) fuel) st0 (p_page p)) as [a| |].
+  - destruct H as [g' [E _]]. rewrite E. reflexivity.
+  - rewrite H. reflexivity.
+  - rewrite H. reflexivity.
+Qed.
